@@ -5,11 +5,11 @@ CONSTANTS
   Blks = {2, 3, 5}
   MinMs = {2, 3}
   Wnds = {3, 16}
-  Variant = "pinned"
+  Variant = "forget"
   EmitOps = TRUE
   AllowNTL = TRUE
   TwoWrites = TRUE
-INVARIANT StateInv
+INVARIANTS StateInv NoFuture
 PROPERTY Refines
 ACTION_CONSTRAINT Emit
 VIEW View
